@@ -67,6 +67,15 @@ func JNull() J            { return J{nil} }
 func JBad() J             { return J{jraw{[]byte("{not json")}} }
 func JBytesVal(b []byte) J { return J{b} }
 
+// JTrailing: the document followed by trailing non-whitespace bytes (a syntax error for json.Unmarshal; a
+// streaming json.Decoder stops after the document).
+func JTrailing(j J) J {
+	var sb bytes.Buffer
+	j.render(&sb)
+	sb.WriteString(" trailing")
+	return J{jraw{sb.Bytes()}}
+}
+
 // JSONBytes renders the document.
 func JSONBytes(j J) []byte {
 	var sb bytes.Buffer
